@@ -131,10 +131,11 @@ Print Assumptions C13_simple_ledger.
 (* and so is the shared worker model (Model/Res.v + Model/Worker.v: `any` and specific resource ids, the full
    allocation ledger, Worker.place_task / can_accomodate_strategy (the cumulative fit test of /repo 402c33a) /
    __deepcopy__ as modelled for C04), for plain strategies with non-negative requests naming each resource once, on
-   well-formed ledgers; a fresh worker is well formed; after the fit test place_task never raises *)
+   well-formed ledgers; a fresh worker is well formed; after the fit test place_task raises only for a task that is
+   already placed on the worker *)
 Theorem C13_worker_model : ledger_laws WL w_wle w_wok w_sok /\
   (forall id v, NoDup (map fst v) -> nonneg_vec v -> w_wok (w_new id v)) /\
-  (forall t s w, w_wok w -> w_sok s -> w_fits s w = true -> snd (w_place t s w) = Ok tt).
+  (forall t s w, w_wok w -> w_sok s -> w_fits s w = true -> zmem t (w_placed w) = false -> snd (w_place t s w) = Ok tt).
 Proof. split; [exact WL_laws|]. split; [exact w_new_ok|exact w_place_succeeds]. Qed.
 Print Assumptions C13_worker_model.
 (* hence, e.g., EDF on the shared worker model *)
